@@ -130,9 +130,54 @@ def tops_since(I, n): return I.tops[n:]
 
 # ---------------------------------------------------------------- comparing emission shapes
 
-def segs_equal(a, b, facts=()):
-    """structural equality of two segment lists with term equality decided by sym.equal; returns (ok, why)"""
+def _explode_consts(segs):
+    out = []
+    for s in segs:
+        if s[0] == 'int' and s[1][0] == 'c' and s[2] > 1:
+            for i in range(s[2]): out.append(('int', C((s[1][1] >> (8 * i)) & 0xff), 1))
+        elif s[0] == 'rep' and s[2] is None and s[1][0] == 'c' and s[1][1] <= 64 and all(x[0] == 'int' and x[1][0] == 'c' for x in s[3]):
+            for _ in range(s[1][1]): out.extend(_explode_consts(list(s[3])))
+        else: out.append(s)
+    return out
+
+def _specialise(segs, c, v):
+    """the segment list under the assumption that condition c has truth value v"""
+    m = {c: (TRUE if v else FALSE)}
+    def tm(x): return rebuild(subst(x, m), lambda y: None) if isinstance(x, tuple) else x
+    out = []
+    for s in segs:
+        k = s[0]
+        if k == 'cond':
+            if s[1] == c: out.extend(_specialise(list(s[2] if v else s[3]), c, v))
+            elif s[1] == bnot(c): out.extend(_specialise(list(s[3] if v else s[2]), c, v))
+            else: out.append(('cond', tm(s[1]), tuple(_specialise(list(s[2]), c, v)), tuple(_specialise(list(s[3]), c, v))))
+        elif k == 'int': out.append(('int', tm(s[1]), s[2]))
+        elif k == 'pkglen': out.append(('pkglen', tm(s[1]), s[2]))
+        elif k == 'rep': out.append(('rep', tm(s[1]), s[2], tuple(_specialise(list(s[3]), c, v))))
+        elif k == 'raw': out.append(('raw', s[1], tm(s[2])))
+        else: out.append(s)
+    return out
+
+def segs_equal(a, b, facts=(), _depth=0):
+    """structural equality of two segment lists with term equality decided by sym.equal; returns (ok, why).
+    When the shapes differ and a branch condition is involved, the comparison is repeated under both truth
+    values of that condition (so `if c {A; X} else {B; Y}` equals `if c {A} else {B}; if c {X} else {Y}`)."""
+    ok, why = _segs_equal(a, b, facts)
+    if ok or _depth >= 4: return ok, why
+    conds = [s[1] for s in list(norm_segs(list(a))) + list(norm_segs(list(b))) if s[0] == 'cond']
+    for c in conds[:1]:
+        if c[0] == 'bnot': c = c[1]
+        for v in (True, False):
+            ok2, why2 = segs_equal(_specialise(list(a), c, v), _specialise(list(b), c, v), list(facts) + [c if v else bnot(c)], _depth + 1)
+            if not ok2: return False, why
+        return True, ''
+    return ok, why
+
+def _segs_equal(a, b, facts=()):
     a = norm_segs(list(a)); b = norm_segs(list(b))
+    if len(a) != len(b) or any(x[0] == 'int' and y[0] == 'int' and x[2] != y[2] for x, y in zip(a, b)):
+        # the chunking of constants does not matter: 6:2 is the bytes 6, 0
+        a = _explode_consts(a); b = _explode_consts(b)
     if len(a) != len(b):
         return False, 'different number of segments: %s vs %s' % (show_segs(a), show_segs(b))
     for x, y in zip(a, b):
